@@ -242,6 +242,18 @@ pub static ALPHABETS: &[Alphabet] = &[
         &[0x0EB3, 0x0ECD, 0x0EB2, 0x0EC8, 0x0EC9, 0x0ECA, 0x0ECB],
     ),
     indic(
+        b"kana",
+        &[(0x3000, 0x30FF), (0xFF00, 0xFFEF), (0x4E00, 0x4E7F), (0xFE30, 0xFE4F)],
+        &[(0x3041, 0x3096), (0x30A1, 0x30FA), (0x4E00, 0x4E2F)],
+        &[],
+        &[],
+        &[0x30FC, 0x3001, 0x3002],
+        &[(0x3099, 0x309A)],
+        &[],
+        &[(0x3099, 0x309C)],
+        &[0x30FC, 0x3001, 0x3002, 0xFF08, 0xFF09, 0x300C, 0x300D, 0x2026, 0x2014, 0x301C, 0xFF1A, 0x3041, 0x30E7],
+    ),
+    indic(
         b"latn",
         &[(0x0020, 0x007E), (0x00A0, 0x024F), (0x0300, 0x036F), (0x0370, 0x03FF), (0x0400, 0x04FF), (0x1E00, 0x1EFF), (0x2000, 0x206F)],
         &[(0x0041, 0x005A), (0x0061, 0x007A)],
@@ -360,6 +372,42 @@ pub enum Tok {
     Syl(u8, u32, u32, u32),
     /// a literal scalar value (used by the deterministic short-string sweep)
     Lit(u32),
+    /// an ASCII fraction `digits '/' digits` behind an optional ligature-prone prefix and in
+    /// front of 0-2 further characters: (prefix selector, digit selector, suffix selector).
+    /// `Features::Mask` with FRAC applies different lookups to the fraction and to the rest.
+    Fraction(u32, u32, u32),
+}
+
+/// Letter sequences that commonly ligate (plus the ones the synthetic fonts ligate).
+pub const LIGATURE_PREFIXES: &[&str] = &[
+    "", "TM", "TM ", "fi", "ffi", "office ", "ff", "fl", "ffl ", "Th", "fj", "tt", "ct", "st ", "fi fl ", "cd", "cd ", "cccccccc", "ab",
+    "gh", "--", "->", "!= ", "www", "...",
+];
+pub const FRACTIONS: &[&str] = &["1/2", "12/34", "3/4", "1/23", "123/456", "1/2/3", "10/9", "7/8", "0/0", "1/", "/2", "1 /2", "1\u{2044}2"];
+pub const FRACTION_SUFFIXES: &[&str] = &["", "", " ", "a", "1", " x", "fi", ".", "/", " 1/2"];
+
+pub fn fraction_text(prefix: u32, digits: u32, suffix: u32) -> String {
+    let mut s = String::new();
+    s.push_str(LIGATURE_PREFIXES[pick(LIGATURE_PREFIXES.len(), prefix)]);
+    if digits & 3 == 0 {
+        s.push_str(FRACTIONS[pick(FRACTIONS.len(), digits)]);
+    } else {
+        // random digits: 1-3 / 1-3
+        let n1 = 1 + (digits >> 2) % 3;
+        let n2 = 1 + (digits >> 4) % 3;
+        let mut d = digits >> 6;
+        for _ in 0..n1 {
+            s.push(char::from(b'0' + (d % 10) as u8));
+            d /= 10;
+        }
+        s.push('/');
+        for _ in 0..n2 {
+            s.push(char::from(b'0' + (d % 10) as u8));
+            d /= 10;
+        }
+    }
+    s.push_str(FRACTION_SUFFIXES[pick(FRACTION_SUFFIXES.len(), suffix)]);
+    s
 }
 
 fn scalar(v: u32) -> Option<char> {
@@ -409,6 +457,7 @@ pub fn resolve(toks: &[Tok], a: &Alphabet, max: usize) -> Vec<char> {
             }
             Tok::Dotted => push(&mut out, Some(DOTTED_CIRCLE)),
             Tok::Lit(v) => push(&mut out, Some(v)),
+            Tok::Fraction(p, d, x) => out.extend(fraction_text(p, d, x).chars()),
             Tok::Ascii(s) => push(&mut out, from_ranges(ASCII, s)),
             Tok::Foreign(which, s) => {
                 let other = &ALPHABETS[pick(ALPHABETS.len(), which)];
